@@ -244,7 +244,14 @@ for _e in ('ValueError', 'TypeError', 'KeyError', 'IndexError', 'Exception', 'Ru
            'BaseException'):
     BUILTINS[_e] = PType(_e)
 
+def it_count(I, start=0, step=1):
+    if step != 1:
+        raise Unsupported("itertools.count with a step")
+    return RangeVal(start, None, 1)          # stop None: never exhausted
+
+
 MODULE_ATTRS = {
+    'itertools.count': Builtin('itertools.count', it_count),
     'np.prod': Builtin('np.prod', np_prod),
     'numpy.prod': Builtin('np.prod', np_prod),
 }
@@ -254,6 +261,13 @@ MODULE_ATTRS = {
 
 def call_method(I, obj, name, args, kwargs):
     P = I.path
+    if (is_z3(obj) and obj.sort() == z3.StringSort()) or (isinstance(obj, str) and any(is_z3(a) for a in args)):
+        sv = lambda x: x if is_z3(x) else z3.StringVal(x)
+        if name == 'startswith' and len(args) == 1:
+            return z3.PrefixOf(sv(args[0]), sv(obj))
+        if name == 'endswith' and len(args) == 1:
+            return z3.SuffixOf(sv(args[0]), sv(obj))
+        raise Unsupported("string method %s" % name)
     if isinstance(obj, PObj):
         m = obj.methods.get(name)
         if m is None:
